@@ -63,6 +63,7 @@ def blocks(tier, seed):
         for nz in (20, 37):
             out.append({"kind": "cyl-boundary", "L": L, "nz": nz, "phase": ph})
     out.append({"kind": "shared-args", "phase": ph})
+    out.append({"kind": "option-preludes", "phase": ph})
     out.append({"kind": "shared-grid", "phase": ph})
     for k in ("polar", "sph"):
         out.append({"kind": k, "phase": ph})
@@ -142,6 +143,12 @@ def cases(block):
             g = {"kind": "cyl", "shape": [int(round(8 / dz)), nz], "R": 8.0, "z": [z0, z1], "periodic_z": True}
             for zc in (z0, z1):
                 yield {"grid": g, "drops": [[[0.0, 0.0, zc], 3.3 * dz, 1.3 * dz]], "rule": 0.5, "intensity": "standard", "classes": ["on-boundary"], "own_render": True}
+            if kk % 8 == 0:
+                # ... and centred within one radius of either periodic boundary (the droplet reaches across it), every threshold rule
+                for f in (0.35, 0.8):
+                    for zc, cl in ((z0 + f * 3.3 * dz, "near-low"), (z1 - f * 3.3 * dz, "near-high")):
+                        for rule in (0.5, "extrema", "mean", "otsu"):
+                            yield {"grid": g, "drops": [[[0.0, 0.0, zc], 3.3 * dz, 1.3 * dz]], "rule": rule, "intensity": "standard", "classes": [cl], "own_render": True}
     elif k == "nproc-history":
         # several different images on EQUAL grids analysed one after the other with worker processes (controlled pool of mcx/sched.py,
         # default schedule), fresh process per sequence: every ordered pair / triple of four images
@@ -157,6 +164,20 @@ def cases(block):
         for n in (2, 3):
             for idx in itertools.permutations(range(len(probes)), n):
                 yield {"shared_args_sequence": [probes[i] for i in idx]}
+    elif k == "option-preludes":
+        # an EARLIER analysis with documented but rarely used optimiser options (not judged: a deliberately coarse fit may miss the
+        # tolerance), then the standard analyses with default options in the same fresh process, judged as always
+        g = {"kind": "cart", "shape": [20, 20], "dx": [1.0, 1.0], "origin": [0.0, 0.0], "periodic": [True, False]}
+        gc = {"kind": "cyl", "shape": [12, 32], "R": 12.0, "z": [-4.0, 28.0], "periodic_z": False}
+        probes = [{"grid": g, "drops": [[[9.3 + ph + 0.4 * i, 10.2], 4.5, 1.0 + 0.25 * (i % 2)]], "rule": 0.5, "intensity": "standard", "classes": ["interior", "interior"]} for i in range(2)]
+        probes.append({"grid": gc, "drops": [[[0.0, 0.0, 9.3 + ph], 4.0, 1.0]], "rule": 0.5, "intensity": "standard", "classes": ["on-axis"]})
+        probes.append(dict(probes[0], intensity="affine1-auto-fitted", rule="extrema"))
+        preludes = [{"least_squares_params": {"ftol": 1e-2, "xtol": 1e-2, "gtol": 1e-2}}, {"least_squares_params": {"max_nfev": 2}}, {"tolerance": 1e-1},
+                    {"least_squares_params": {"loss": "soft_l1", "f_scale": 0.01}}, {"least_squares_params": {"method": "dogbox", "ftol": 1e-3}}, {"vmin": 0.1, "vmax": 0.7}]
+        for pre in preludes:
+            for q in range(len(probes)):
+                first = dict(probes[q], unjudged=True, extra_args=pre)
+                yield {"plain_sequence": [first] + probes, "prelude": True}
     elif k == "shared-grid":
         # the caller keeps ONE grid object and analyses several images on it, fresh process per sequence
         gc = {"kind": "cyl", "shape": [12, 64], "R": 12.0, "z": [-4.0, 28.0], "periodic_z": False}  # dz = 0.5
@@ -251,6 +272,9 @@ def run_case(case, ctx):
                 run_case(c, sub)
 
             return core.run_sequence_in_fork(one, case["plain_sequence"], ctx, tag={"history": "worker-processes"})
+        if case.get("prelude"):
+            ctx.count("option-prelude-sequences")
+            return core.run_sequence_in_fork(run_case, case["plain_sequence"], ctx, tag={"history": "option-prelude"})
         ctx.count("shared-grid-sequences")
         return core.run_sequence_in_fork(run_case, case["plain_sequence"], ctx, tag={"history": "shared-grid-object"})
     g = case["grid"]
@@ -277,7 +301,7 @@ def run_case(case, ctx):
     if case.get("own_render"):
         (c, R, w), = drops
         base = 0.5 + 0.5 * np.tanh((R - geom.sym_dist(g, c)) / w)
-        ctx.count("droplet-centred-on-periodic-z-boundary")
+        ctx.count("droplet-centred-on-periodic-z-boundary" if case["classes"] == ["on-boundary"] else "droplet-reaching-across-periodic-z-boundary")
     else:
         em0 = Emulsion([DiffuseDroplet(np.array(c, float), R, w) for c, R, w in drops])
         base = em0.get_phasefield(grid).data
@@ -295,6 +319,8 @@ def run_case(case, ctx):
         args.update(vmin=None, vmax=None)
     if "fitted" in it:
         args.update(adjust_values=True)
+    if case.get("extra_args"):
+        args.update({k: (dict(v) if isinstance(v, dict) else v) for k, v in case["extra_args"].items()})
     if case.get("use_shared"):
         if not _SHARED:
             _SHARED.update(args)
@@ -306,6 +332,8 @@ def run_case(case, ctx):
         em = locate_droplets(field, threshold=thr, refine=True, refine_args=args, **extra)
         ctx.op()
         ctx.check("C05.image-unmodified", field.data.tobytes() == image, None, tags)
+        if case.get("unjudged"):
+            return
     except Exception as e:  # noqa
         ctx.check("C05.no-raise", False, {"exc": repr(e)[:300], "refine_args": {k: v for k, v in args.items()}}, tags)
         return
@@ -355,4 +383,4 @@ def run_case(case, ctx):
 
 def expected_positive(tier):
     return ["C05.count", "C05.position", "C05.radius", "C05.width", "C05.inbox", "across-or-outside-periodic-boundary", "fitted-levels", "two-droplets",
-            "small-droplet-within-one-big-radius-of-big-surface", "straddling-on-non-square-box", "annular-grid", "cylindrical-z-range-excluding-0", "shared-options-sequences", "shared-grid-sequences", "numeric-threshold-off-mid-level", "worker-process-sequences", "droplet-centred-on-periodic-z-boundary"]
+            "small-droplet-within-one-big-radius-of-big-surface", "straddling-on-non-square-box", "annular-grid", "cylindrical-z-range-excluding-0", "shared-options-sequences", "shared-grid-sequences", "numeric-threshold-off-mid-level", "worker-process-sequences", "droplet-centred-on-periodic-z-boundary", "droplet-reaching-across-periodic-z-boundary", "option-prelude-sequences"]
